@@ -92,6 +92,27 @@ def eval_float(node, xs):
     return {"+": a + b, "-": a - b, "*": a * b, "/": a / b if b != 0 else float("nan"), "**": a**b}[kind]
 
 
+def at_singular_point(node, xs):
+    """an intermediate value sits on a singular point of the operator acting on it: base 0 of a power,
+    argument 0 of a division (the first-order rule involves ln(0) or 1/0 there)"""
+    kind = node[0]
+    if kind in ("x", "c"):
+        return False
+    subs = [n for n in node[1:] if isinstance(n, (list, tuple))]
+    if any(at_singular_point(n, xs) for n in subs):
+        return True
+    try:
+        if kind == "**" and abs(eval_float(node[1], xs)) < 1e-6:
+            return True
+        if kind == "/" and abs(eval_float(node[2], xs)) < 1e-6:
+            return True
+        if kind == "log" and abs(eval_float(node[1], xs)) < 1e-6:
+            return True
+    except (ValueError, OverflowError, ZeroDivisionError, TypeError):
+        return True
+    return False
+
+
 def leaf_uses(node, counts):
     if node[0] == "x":
         counts[node[1]] = counts.get(node[1], 0) + 1
@@ -134,6 +155,8 @@ def number_error(ctx, case):
         return {"skip": "expression_undefined_at_point"}
     if not isinstance(v0, float) or not math.isfinite(v0) or abs(v0) > 1e6:
         return {"skip": "expression_undefined_at_point"}
+    if at_singular_point(node, xs):
+        return {"skip": "near_singularity"}
     # derivative by central differences; require a well conditioned point
     grads = []
     for i in range(len(xs)):
